@@ -141,6 +141,18 @@ let show_verr = function
   | VSize (e, a) -> "E:Size:" ^ string_of_z e ^ ":" ^ string_of_z a
   | VChecksum _ -> "E:Checksum"
 
+(* ---- plist ---- *)
+let opt_sb = function None -> "N" | Some x -> "S" ^ arg_of_str x
+let show_pentry = function
+  | PFile x -> "File:" ^ arg_of_str x | PCwd x -> "Cwd:" ^ arg_of_str x | PExec x -> "Exec:" ^ arg_of_str x
+  | PUnExec x -> "UnExec:" ^ arg_of_str x | PMode o -> "Mode:" ^ opt_sb o | PPreserve -> "Preserve"
+  | POwner o -> "Owner:" ^ opt_sb o | PGroup o -> "Group:" ^ opt_sb o | PComment o -> "Comment:" ^ opt_sb o
+  | PIgnore -> "Ignore" | PName x -> "Name:" ^ arg_of_str x | PPkgDir x -> "PkgDir:" ^ arg_of_str x
+  | PDirRm x -> "DirRm:" ^ arg_of_str x | PDisplay x -> "Display:" ^ arg_of_str x | PPkgDep x -> "PkgDep:" ^ arg_of_str x
+  | PBldDep x -> "BldDep:" ^ arg_of_str x | PPkgCfl x -> "PkgCfl:" ^ arg_of_str x
+let show_perr = function PEUnsupported -> "E:Unsupported" | PEArgs -> "E:Args" | PEUtf8 -> "E:Utf8"
+let slist f l = String.concat ";" (List.map f l)
+
 let run (op : string) (args : string list) : string =
   match op, args with
   | "dewey.new", [p] ->
@@ -234,6 +246,22 @@ let run (op : string) (args : string list) : string =
                  else EData (str_of_arg (String.sub e 2 (String.length e - 2))) in
       let pre = (if op = "dg.file" then hash_file_pre else hash_patch_pre) (List.map ev evs) in
       (match pre with Some p -> "PREB:" ^ a ^ ":" ^ arg_of_str p | None -> "E:Io")
+  | "pl.entry", [b] ->
+      (match entry_of_bytes (str_of_arg b) with
+       | Val e -> show_pentry e | Fail e -> show_perr e | Panic _ -> "PANIC" | OutOfFuel -> "FUEL")
+  | "pl.parse", [b] ->
+      (match plist_of_bytes (str_of_arg b) with
+       | Val l -> "OK|" ^ slist show_pentry l | Fail e -> show_perr e | Panic _ -> "PANIC" | OutOfFuel -> "FUEL")
+  | "pl.query", [b] ->
+      (match plist_of_bytes (str_of_arg b) with
+       | Val l ->
+           "files=" ^ slist arg_of_str (files l) ^ "|prefixed=" ^ slist arg_of_str (files_prefixed l)
+           ^ "|install=" ^ slist show_pentry (install_cmds l) ^ "|uninstall=" ^ slist show_pentry (uninstall_cmds l)
+           ^ "|depends=" ^ slist arg_of_str (depends l) ^ "|build_depends=" ^ slist arg_of_str (build_depends l)
+           ^ "|conflicts=" ^ slist arg_of_str (conflicts l) ^ "|pkgdirs=" ^ slist arg_of_str (pkgdirs l)
+           ^ "|pkgrmdirs=" ^ slist arg_of_str (pkgrmdirs l) ^ "|pkgname=" ^ opt_sb (pl_pkgname l)
+           ^ "|display=" ^ opt_sb (pl_display l) ^ "|preserve=" ^ bool_obs (is_preserve l)
+       | Fail e -> show_perr e | Panic _ -> "PANIC" | OutOfFuel -> "FUEL")
   | _ -> "UNKNOWN-OP"
 
 let () =
